@@ -46,6 +46,7 @@
     0x00001000 /* ptrdiff_t (d, i, u, o, x, X); ptrdiff_t* (n) */
 #define OPS_LEN_LONGFP 0x00002000 /* long double (f, F, e, E, g, G, a, A) */
 #define OPS_SPEC_UPPER_CASE 0x00004000 /* specifier is tall */
+#define OPS_SPEC_POINTER 0x00008000    /* %p: the 0x prefix is always printed */
 
 /**
  * Options for print_s
@@ -119,24 +120,35 @@ static int print_i(void (*printchar_handler)(void *d, int c),
     prefix = is_signed && ((long long int)u < 0)         ? (u = 0 - u, "-")
              : is_signed && (ops & OPS_FLAG_WITH_SIGN)   ? "+"
              : is_signed && (ops & OPS_FLAG_EXTRA_SPACE) ? " "
-             : (base == 8) && (ops & OPS_FLAG_WITH_SPEC) ? "0"
-             : (base == 16) && (ops & OPS_FLAG_WITH_SPEC)
+             /* 0x only for a non-zero value (always for %p); the alternative
+              * form of o is handled through the precision below */
+             : (base == 16) && (ops & OPS_FLAG_WITH_SPEC) &&
+                     (u != 0 || (ops & OPS_SPEC_POINTER))
                  ? ops & OPS_SPEC_UPPER_CASE ? "0X" : "0x"
                  : "";
     pc = 0;
     prefix_len = (int)strlen(prefix);
     letter_base = ops & OPS_SPEC_UPPER_CASE ? 'A' : 'a';
 
-    do
+    /* a zero value with an explicit precision of zero has no digits */
+    if (!(u == 0 && (ops & OPS_PREC_IS_GIVEN) && min_len == 0))
     {
-        ch = u % base;
-        if (ch >= 10)
-            ch += letter_base - 10 - '0';
-        *--str = ch + '0';
-        u /= base;
-    } while (u);
+        do
+        {
+            ch = u % base;
+            if (ch >= 10)
+                ch += letter_base - 10 - '0';
+            *--str = ch + '0';
+            u /= base;
+        } while (u);
+    }
 
     len = (int)(end - str);
+    /* alternative form of o: raise the precision, if and only if necessary,
+     * to force a leading zero */
+    if ((base == 8) && (ops & OPS_FLAG_WITH_SPEC) && min_len <= len &&
+        (len == 0 || *str != '0'))
+        min_len = len + 1;
     /* the precision is the minimum number of digits (sign and prefix do not
      * count); the 0 flag pads to the field width and is ignored when a
      * precision is given or the field is left-justified */
@@ -596,7 +608,8 @@ int __printf(void (*printchar_handler)(void *d, int c),
                           0,
                           width,
                           sizeof tmp.vp * 2,
-                          ops | (OPS_FLAG_WITH_SPEC | OPS_FLAG_ZERO_PAD),
+                          (ops | OPS_FLAG_WITH_SPEC | OPS_SPEC_POINTER) &
+                              ~(OPS_FLAG_ZERO_PAD | OPS_PREC_IS_GIVEN),
                           16);
             break;
         case 'n':
